@@ -19,6 +19,13 @@ claim('C10',
       'One inductive step of the copy-on-write registries from an arbitrary reachable configuration: under each of the 9 shipped roots a 4-class lattice is built, the ownership pre-state (3 bits per table kind), the operation (6 registration kinds, subclass / YAMLObject definition, the 6 module-level helpers), its target and its key are solver variables, and after the real add_* code has run the effective table of every lattice class and of every shipped class is compared with the rule of the property (including list-object aliasing of implicit resolvers). Every cell closes its path tree, so the step is decided for every combination in the bound; two-step histories in the thorough tier check that the pre-state invariant is not too weak.',
       'Registered keys are chosen among {already present, fresh, a core tag, empty} rather than arbitrary strings (inserting a symbolic str into a real dict hashes = realises it). Shipped tables are snapshotted/restored around every path. Histories longer than two steps rest on the inductive argument.')
 
+claim('C03',
+      'The real reader, scanner, parser and composer are executed symbolically on every str of up to 2 (quick) / 3 (thorough) characters over the whole code-point range, on deep templates (a concrete prefix with free characters: every escape letter followed by free hex digits, directives, tags, anchors, block headers, quoted and flow forms), on indicator-alphabet strings, and on every short byte string through the byte-level Reader with a pure-Python model of the C codecs. The postcondition (only YAMLError, marks inside the input) is decided per path by z3 and each cell closes its path tree or is reported inconclusive.',
+      'Py pipeline only. Trusted: CrossHair/z3; M1/M1b error-message placeholders; M3 int(hex) model; M4 codec models (differentially self-tested against codecs on every run). "Never hangs" is decided as "every explored path ended". Fixed finding F1 (\\U escape range) listed in known_findings.json.')
+claim('C09',
+      'Same symbolic exploration of the real scanner and parser as C03, with the stronger postcondition: token stream accepted by an independent nesting recogniser (for inputs that parse), event stream accepted by an independent recogniser of the event grammar, every token/event/error mark inside the input, start_1 <= end_1 <= start_2 ..., line/column equal to a recount of line breaks in the symbolic input (CR LF once, BOM not counted), mark-delimited text equal to the value for single-line plain scalars, anchors and aliases. The parser alone is additionally driven by every sequence of up to 3 (4) tokens of the 18 kinds fed lazily from a stub source.',
+      'Py pipeline only. Trusted: CrossHair/z3, M1/M1b placeholders, the reference recognisers in spec/grammar.py. Token nesting is only demanded of inputs that parse (a stream the parser rejects is by definition outside the documented grammar).')
+
 NA = {
  'C06': 'every comparison is between two artefacts of libyaml (a compiled system .so behind a Cython binding that cannot be rebuilt offline); symbolic values are realised at the extension boundary, so no solver variable survives into the code under comparison',
  'C20': 'asymptotic growth over input sizes: bounded symbolic execution cannot observe doubling and an unbounded cost argument is proof-assistant work; the anchored look-ahead mechanisms are decided as one-step invariants under C09/C18',
